@@ -3,7 +3,7 @@
    abstract state, with usages, roots and totals derived). *)
 From Coq Require Import Permutation.
 From PV Require Import Proofs.Defs Spec.ApiSpec.
-From PV Require Proofs.C04 Proofs.C08 Proofs.C09 Proofs.C12 Proofs.C07d Proofs.C07e.
+From PV Require Proofs.C04 Proofs.C08 Proofs.C09 Proofs.C12 Proofs.C07d Proofs.C07e Proofs.C11n.
 
 (* ================================================================ the row order *)
 Lemma row_leb_total : forall a b, row_leb a b = false -> row_leb b a = true.
@@ -489,12 +489,14 @@ Proof.
     + f_equal. apply group_rows_perm. apply usage_join_perm. exact HN.
 Qed.
 
-(* main refinement theorem *)
+(* main refinement theorem; the class and trait reads are in Proofs/C11n.v.  Only
+   GET /traits?associated=true needs more than RI: trait names must be unique (traits_unique, an
+   invariant: C11n.c11_traits_unique) *)
 Lemma c11_reads_refine :
   forall d, RI d -> Forest d -> NoDup (map c_uuid (consumers d)) ->
-  forall q v, view q v d = spec_view q v (abs d).
+  forall q v, (needs_unique_traits q = true -> traits_unique d) -> view q v d = spec_view q v (abs d).
 Proof.
-  intros d HR HF HN [u|u|u rc|u|u|u|u|c|p user ct] v; cbn [view spec_view].
+  intros d HR HF HN [u|u|u rc|u|u|u|u|c|p user ct|names assoc|t| |n] v HU; cbn [view spec_view].
   - apply refine_rp; assumption.
   - apply refine_invs; assumption.
   - apply refine_inv; assumption.
@@ -504,6 +506,10 @@ Proof.
   - apply refine_rp_aggs; assumption.
   - apply refine_cons_allocs; assumption.
   - apply refine_usages; assumption.
+  - apply C11n.refine_traits; [exact HR|]. intros ->. apply HU. reflexivity.
+  - apply C11n.refine_trait.
+  - apply C11n.refine_classes.
+  - apply C11n.refine_class.
 Qed.
 
 (* ================================================================ consumer uuids stay unique *)
@@ -611,6 +617,7 @@ Proof.
     unfold RI. cbn. split; [|split; [|split]]; intros x Hx; destruct Hx.
   - apply C09.c09_invariant.
   - apply c11_consumers_unique.
+  - intros _. apply C11n.c11_traits_unique.
 Qed.
 
 (* ================================================================ usage is the sum of the allocations *)
